@@ -309,3 +309,18 @@ impl RenetServer {
         Ok(())
     }
 }
+
+#[cfg(feature = "verif")]
+impl RenetServer {
+    /// Read-only access to a connection for state dumps (verification hook).
+    pub fn verif_connection(&self, client_id: ClientId) -> Option<&RenetClient> {
+        self.connections.get(&client_id)
+    }
+
+    /// All connection ids, sorted (verification hook).
+    pub fn verif_connection_ids(&self) -> Vec<ClientId> {
+        let mut ids: Vec<ClientId> = self.connections.keys().copied().collect();
+        ids.sort();
+        ids
+    }
+}
